@@ -27,10 +27,13 @@
    register   honours _engine_types, skips hooks the mode does not have, refuses required csets the
               engine does not know (TriggerUnknownCset, nothing registered).
    operation  install / uninstall / replace run their hooks in the fixed order, under the
-              repository lock, merge hooks before unmerge hooks for a replace; a stage that was
-              completed is never run again, a retry resumes with the stage that failed.
+              repository lock, merge hooks before unmerge hooks for a replace (OpOrdered, UnderLock);
+              a stage that was completed is never run again, a retry resumes with the stage that
+              failed (NoRerun, DonePrefix); an operation that is given up releases the lock and
+              removes its tempspace (Abandon).  As the code does it: a `start` stage that failed
+              is run again from scratch (second tempspace, lock taken again; ghost `starts`).
    writable   get_writable_fsobj returns a writable data source with the wanted content living in
-              the engine's tempspace, reusing a tempspace file only when allowed.
+              the engine's tempspace, reusing a tempspace file only when allowed (W_ clauses).
 
    The engine state is ONE record, every public call is an operator  s |-> [s, log, res]  where
    log is the sequence of observations (items) the call produces.                              *)
